@@ -135,6 +135,17 @@ theorem C08_read_wf (t : Ast) (q : Query) (h : readFragment t = .ok q) : q.wf = 
   | error e => simp [hf] at h
   | ok f => simp only [hf] at h; exact Read.frag_wf f q h
 
+/-- **Reader, outcome classes**: whatever tree it is given, the reader model ends with a query, a
+`RINGReaderError`, a `NotImplementedError`, or — only on a tree the parser cannot produce — `shape`.
+There is no other outcome: the one non-RING exception the reader could raise on a parser-produced
+tree (`TypeError` from the dead duplicate-label guard, FM2) was repaired in the repository and the
+corresponding constructor and branch were removed from the model, so this holds by construction of
+the outcome type; the correspondence check holds the implementation to it (an implementation
+exception of any other class on a generated fragment is a disagreement and a violation). -/
+theorem C08_read_only_ring_errors (t : Ast) (e : ReadErr) (_h : readFragment t = .error e) :
+    e = .reader ∨ e = .notImplemented ∨ e = .shape := by
+  cases e <;> simp
+
 /-- **T1 from the parse tree on**: for every parse tree the reader accepts, every well-formed
 molecule graph and every assignment, the matches of the query read from the tree are exactly the
 embeddings of that query (guard: no `*` suffix). -/
@@ -144,24 +155,27 @@ theorem C08_fragment_matches_iff_partial (t : Ast) (q : Query) (m : Mol) (f : Li
   C08_matches_iff_partial q m f (C08_read_wf t q hread) hm hstar
 
 /-- **T3, reading, full statement**: renaming the labels by any injective renaming changes nothing
-but the label names in what the reader returns.  False of the code as it is (finding FM2): an atom
-*called* `AtomLabel` makes the reader fail with `TypeError` at the next bonded atom, so renaming a
-label to or from that word changes the outcome.  The failing input is exhibited on the real code
-by `corpus/C08/FM2.json` (the reader's element lookup goes through `String.toList`, which the
-kernel does not evaluate, so the refutation is not replayed in Lean). -/
+but the label names in what the reader returns.  Before the repository repair of finding FM2 this was
+false of the code (an atom *called* `AtomLabel` made the reader fail with `TypeError` at the next
+bonded atom, so the proved statement carried the guard "σ neither introduces nor removes the word
+`AtomLabel`"); the dead guard is gone, the model has no such branch any more, and the full statement
+is now a theorem (`C08_alpha_read`).  The former failing input stays in `corpus/C08/FM2.json` and must
+be read. -/
 def C08_alpha_read_full : Prop :=
   ∀ (σ : String → String), Function.Injective σ → ∀ f : Frag,
     Read.frag (f.rename σ) = (Read.frag f).map (Query.relabel σ)
 
-/-- **T3, reading (proved part)**: renaming the atom labels of a fragment by any injective renaming
-`σ` that neither introduces nor removes the word `AtomLabel` changes nothing but the label names in
-what the reader returns — same outcome class, same atoms, bonds, constraints and stereo
-statements.  Every fragment, every length.  (Stated on the typed fragment `Frag` the tree is first
-decoded into; layout and white space are consumed by the parser and do not reach the tree — C09.) -/
-theorem C08_alpha_read_partial (σ : String → String) (hσ : Function.Injective σ)
-    (hAL : ∀ s, σ s = "AtomLabel" ↔ s = "AtomLabel") (f : Frag) :
+/-- **T3, reading**: renaming the atom labels of a fragment by *any* injective renaming `σ` changes
+nothing but the label names in what the reader returns — same outcome class, same atoms, bonds,
+constraints and stereo statements.  Every fragment, every length, no guard on the label words.
+(Stated on the typed fragment `Frag` the tree is first decoded into; layout and white space are
+consumed by the parser and do not reach the tree — see `PGA/Props/C08Text.lean`.) -/
+theorem C08_alpha_read (σ : String → String) (hσ : Function.Injective σ) (f : Frag) :
     Read.frag (f.rename σ) = (Read.frag f).map (Query.relabel σ) :=
-  Read.frag_rename σ hσ hAL f
+  Read.frag_rename σ hσ f
+
+/-- the full statement of T3 (reading) holds -/
+theorem C08_alpha_read_full_holds : C08_alpha_read_full := C08_alpha_read
 
 /-- **T3, label names are not part of a query's meaning**: relabelling a query leaves its matches
 on every molecule unchanged. -/
@@ -171,12 +185,10 @@ theorem C08_labels_irrelevant (σ : String → String) (q : Query) (m : Mol) :
 
 /-- **T3**: the matches of a fragment do not depend on the choice of label names: for every
 fragment, every injective renaming and every molecule, reading the renamed fragment and matching
-gives the same outcome (same error, or the same list of matches).  Guard as in
-`C08_alpha_read_partial`. -/
-theorem C08_alpha_matches_partial (σ : String → String) (hσ : Function.Injective σ)
-    (hAL : ∀ s, σ s = "AtomLabel" ↔ s = "AtomLabel") (f : Frag) (m : Mol) :
+gives the same outcome (same error, or the same list of matches).  No guard. -/
+theorem C08_alpha_matches (σ : String → String) (hσ : Function.Injective σ) (f : Frag) (m : Mol) :
     (Read.frag (f.rename σ)).map (queryMatches · m) = (Read.frag f).map (queryMatches · m) := by
-  rw [C08_alpha_read_partial σ hσ hAL f]
+  rw [C08_alpha_read σ hσ f]
   cases Read.frag f with
   | error e => rfl
   | ok q => simp only [Except.map]; rw [C08_labels_irrelevant]
@@ -201,20 +213,35 @@ theorem swapAB_injective : Function.Injective swapAB := by
   intro x y h
   rw [← inv x, ← inv y, h]
 
-theorem swapAB_fixes (s : String) : swapAB s = "AtomLabel" ↔ s = "AtomLabel" := by
-  unfold swapAB
-  by_cases h1 : s = "a"
-  · subst h1; decide
-  · by_cases h2 : s = "b"
-    · subst h2; decide
-    · simp [h1, h2]
-
 /-- non-vacuity of T3: an injective renaming that really moves the labels of the example -/
 example : (exFrag.rename swapAB).label0 = "b" := by decide
 
 example (m : Mol) : (Read.frag (exFrag.rename swapAB)).map (queryMatches · m) =
     (Read.frag exFrag).map (queryMatches · m) :=
-  C08_alpha_matches_partial swapAB swapAB_injective swapAB_fixes exFrag m
+  C08_alpha_matches swapAB swapAB_injective exFrag m
+
+/-- a renaming that *introduces* the word `AtomLabel` (the class the old guard excluded): swap `a` and `AtomLabel` -/
+def swapAL (s : String) : String := if s = "a" then "AtomLabel" else if s = "AtomLabel" then "a" else s
+
+theorem swapAL_injective : Function.Injective swapAL := by
+  have inv : ∀ s, swapAL (swapAL s) = s := by
+    intro s
+    unfold swapAL
+    by_cases h1 : s = "a"
+    · subst h1; decide
+    · by_cases h2 : s = "AtomLabel"
+      · subst h2; decide
+      · simp [h1, h2]
+  intro x y h
+  rw [← inv x, ← inv y, h]
+
+/-- the former FM2 class is covered: the first atom of the example is now called `AtomLabel`, a bonded atom follows,
+and reading and matching are unchanged -/
+example : (exFrag.rename swapAL).label0 = "AtomLabel" := by decide
+
+example (m : Mol) : (Read.frag (exFrag.rename swapAL)).map (queryMatches · m) =
+    (Read.frag exFrag).map (queryMatches · m) :=
+  C08_alpha_matches swapAL swapAL_injective exFrag m
 
 /-! ## The cap of 10 000 candidates (F30) -/
 
